@@ -23,12 +23,16 @@ import time
 import traceback
 
 VERIF = os.path.dirname(os.path.dirname(os.path.abspath(__file__)))
-REPO = os.environ.get("UCG_REPO", "/repo")
+# UCG_REPO: judge another checkout of zaphar/ucg (a scratch worktree carrying a seeded change) instead of
+# /repo, with its own harness copy and target directory, so that /repo is never touched
+REPO = os.path.abspath(os.environ.get("UCG_REPO", "/repo"))
 BUILD = os.path.join(VERIF, ".build")
-TARGET = os.path.join(BUILD, "probe")
+_ALT = "" if REPO == "/repo" else "-" + hashlib.sha1(REPO.encode()).hexdigest()[:8]
+TARGET = os.path.join(BUILD, "probe" + _ALT)
+HARNESS = os.path.join(VERIF, "harness") if not _ALT else os.path.join(BUILD, "harness" + _ALT)
 PROBE = os.path.join(TARGET, "release", "probe")
 UCG = os.path.join(TARGET, "release", "ucg")
-SCRATCH = os.path.join(BUILD, "scratch")
+SCRATCH = os.path.join(BUILD, "scratch" + _ALT)
 KNOWN_FILE = os.path.join(VERIF, "known_findings.jsonl")
 NCPU = int(os.environ.get("VERIF_JOBS", str(os.cpu_count() or 4)))
 
@@ -43,7 +47,14 @@ class HarnessBroken(Exception):
 def build(verbose=True):
     """Incremental offline build of probe + ucg CLI from /repo's working tree."""
     os.makedirs(BUILD, exist_ok=True)
-    hdir = os.path.join(VERIF, "harness")
+    hdir = HARNESS
+    if _ALT:
+        src = os.path.join(VERIF, "harness")
+        os.makedirs(os.path.join(hdir, "src", "bin"), exist_ok=True)
+        for rel in ("src/main.rs", "src/astjson.rs", "src/valjson.rs", "src/bin/miri_conv.rs"):
+            shutil.copyfile(os.path.join(src, rel), os.path.join(hdir, rel))
+        with open(os.path.join(hdir, "Cargo.toml"), "w") as f:
+            f.write(open(os.path.join(src, "Cargo.toml")).read().replace('path = "/repo"', 'path = "%s"' % REPO))
     lock_src = os.path.join(REPO, "Cargo.lock")
     lock_dst = os.path.join(hdir, "Cargo.lock")
     try:
@@ -450,8 +461,11 @@ def finish(prop, tier, seed, result, rule, t0, level_text="", assumptions=None, 
     known = load_known(prop)
     known_active = [k for k in known if k.get("status") == "known"]
     fixed = [k for k in known if k.get("status") == "fixed"]
-    os.makedirs(os.path.join(VERIF, "evidence"), exist_ok=True)
-    os.makedirs(os.path.join(VERIF, "replay", prop), exist_ok=True)
+    # runs against another checkout (UCG_REPO) never touch the committed evidence
+    evdir = os.path.join(VERIF, "evidence") if not _ALT else os.path.join(BUILD, "evidence" + _ALT)
+    rpdir = os.path.join(VERIF, "replay") if not _ALT else os.path.join(BUILD, "replay" + _ALT)
+    os.makedirs(evdir, exist_ok=True)
+    os.makedirs(os.path.join(rpdir, prop), exist_ok=True)
 
     new_viol = []
     known_seen = collections.Counter()
@@ -516,7 +530,7 @@ def finish(prop, tier, seed, result, rule, t0, level_text="", assumptions=None, 
                 "repro": "./check %s --replay <this file>" % prop}
         blob = json.dumps(body, sort_keys=True, default=str)
         hh = hashlib.sha1(blob.encode()).hexdigest()[:12]
-        path = os.path.join(VERIF, "replay", prop, hh + ".json")
+        path = os.path.join(rpdir, prop, hh + ".json")
         with open(path, "w") as f:
             f.write(json.dumps(body, indent=1, default=str))
         replay_paths.append(path)
@@ -554,7 +568,7 @@ def finish(prop, tier, seed, result, rule, t0, level_text="", assumptions=None, 
         broken = "too many inconclusive cases: %d of %d" % (result.inconclusive, result.evaluations)
     if not coverage["samples"]:
         coverage["samples"] = ["<no sample recorded>"]
-    with open(os.path.join(VERIF, "evidence", prop + ".json"), "w") as f:
+    with open(os.path.join(evdir, prop + ".json"), "w") as f:
         json.dump(ev, f, indent=1, default=str)
         f.write("\n")
 
